@@ -21,7 +21,7 @@ RULE = (
 ORACLES = [
     "the run returns (no deadlock / horizon / step budget)",
     "on_close exactly once per run and no callback after it",
-    "at return: every simulated socket of the run closed, no sim thread (ping thread) alive, app.sock is None",
+    "at return: every simulated socket of the run closed, no sim thread (ping thread) alive, app.sock None or at least not connected / without live transport",
     "on_close arguments == (code, reason) of the server's close frame when that ended the run, else (None, None)",
     "return value True <=> on_error was invoked during that run; False and no on_error for the sequential clean endings "
     "(server close frame, own close() from a callback); for a concurrent close() either outcome is admitted",
@@ -208,8 +208,9 @@ def run_case(case):
             obs.fail(f"{tag}|socket-left-open", f"sockets {left} still open when run_forever returned")
         if o["alive"]:
             obs.fail(f"{tag}|thread-alive-after-return", f"{o['alive']}")
-        if o["app_sock"] is not None:
-            obs.fail(f"{tag}|app.sock-not-None", f"{o['app_sock']!r}")
+        a_s = o["app_sock"]
+        if a_s is not None and (getattr(a_s, "connected", False) or (getattr(a_s, "sock", None) is not None and not getattr(a_s.sock, "closed", True))):
+            obs.fail(f"{tag}|app.sock-still-live", f"{a_s!r}: connected={getattr(a_s, 'connected', None)} transport={getattr(a_s, 'sock', None)!r}")
         errs = [e for e in tr if e[1] == "on_error"]
         if bool(o["ret"]) != bool(errs):
             obs.fail(f"{tag}|return-value-vs-on_error|ret={bool(o['ret'])}-errors={len(errs)}", f"run_forever returned {o['ret']!r}, on_error calls: {[e[2] for e in errs]}")
